@@ -63,7 +63,8 @@ def run_instance(case, obj=None):
         warnings.simplefilter('ignore')
         for bi, (a, b) in enumerate(zip(cuts, cuts[1:])):
             if b > a:
-                must(case, '%s.update' % metric, obj.update, traces[a:b], data[a:b])
+                lt, ld = case.get('layout') or ('C', 'C')
+                must(case, '%s.update' % metric, obj.update, gen.relayout(traces[a:b], lt), gen.relayout(data[a:b], ld))
                 if bi < len(mid) and mid[bi]:
                     must(case, '%s.compute between batches' % metric, obj.compute)      # must not disturb what follows
         res = must(case, '%s.compute' % metric, obj.compute)
@@ -142,6 +143,7 @@ def check_case(ctx, case):
         labels.append('word_ndim:%d' % (data.ndim - 1))
     if any(case.get('mid_computes') or []) or case.get('compute_twice'):
         labels.append('compute_before_final')
+    labels.append('layout:%s/%s' % tuple(case.get('layout') or ('C', 'C')))
     ctx.case(case, unbalanced or empty, labels)
 
 
@@ -192,12 +194,17 @@ def draw_labels(draw, g, n, W, classes, first_len, auto_max=None, extra_undeclar
 
 
 @st.composite
-def cases(draw, precision, int_dtype, float_dtype):
+def cases(draw, precision, int_dtype, float_dtype, large=False):
     metric = draw(st.sampled_from(METRICS))
-    regime = draw(st.sampled_from(['exact', 'exact', 'rounded']))
+    regime = draw(st.sampled_from(['exact', 'exact', 'rounded'])) if not large else 'exact'
     n = draw(st.one_of(st.integers(2, 12), st.integers(2, 60), st.integers(2, 200)))
     s = draw(st.integers(2, 6))
     wshape = draw(st.sampled_from([(1,), (2,), (3,), (4,), (2,), (3,), (2, 2)]))
+    if large:
+        # tens of thousands of traces in one or a few very large batches (sizes around powers of two and off them)
+        n = draw(st.sampled_from([4097, 8193, 16385, 20000, 32769, 65537])) + draw(st.integers(-2, 2))
+        s = draw(st.integers(1, 2))
+        wshape = draw(st.sampled_from([(1,), (2,)]))
     W = int(np.prod(wshape))
     seed64 = draw(st.integers(0, 2 ** 63))
     g = np.random.Generator(np.random.PCG64(seed64))
@@ -257,11 +264,12 @@ def cases(draw, precision, int_dtype, float_dtype):
     kernels = [draw(st.integers(0, 1)) for _ in range(nb)] if len(classes) <= 9 else []
     return {'kind': 'partitioned', 'dist': metric, 'precision': precision, 'regime': regime, 'traces': traces, 'data': data,
             'cuts': cuts, 'partitions': partitions, 'kernels': kernels,
-            'mid_computes': [draw(st.booleans()) for _ in range(nb)], 'compute_twice': draw(st.booleans())}
+            'mid_computes': [draw(st.booleans()) for _ in range(nb)], 'compute_twice': draw(st.booleans()),
+            'layout': [draw(st.sampled_from(gen.LAYOUTS)), draw(st.sampled_from(gen.LAYOUTS))]}
 
 
-def unit_generated(ctx, precision, int_dtype, float_dtype, n):
-    hyp.run(ctx, cases(precision, int_dtype, float_dtype), check_case, n, shrink_budget=60 if ctx.tier == 'quick' else 400)
+def unit_generated(ctx, precision, int_dtype, float_dtype, n, large=False):
+    hyp.run(ctx, cases(precision, int_dtype, float_dtype, large), check_case, n, shrink_budget=(60 if not large else 6) if ctx.tier == 'quick' else (400 if not large else 30))
 
 
 GROUPS = [('uint8', 'float32'), ('int8', 'float64'), ('uint16', 'float32'), ('int16', 'float64'),
@@ -275,6 +283,8 @@ def units(tier):
         for precision in ('float32', 'float64'):
             us.append({'name': 'gen-%s-%s-%s' % (precision, idt, fdt), 'fn': 'unit_generated',
                        'kwargs': {'precision': precision, 'int_dtype': idt, 'float_dtype': fdt, 'n': 450 if q else 6000}})
+    for precision, idt, fdt in (('float32', 'uint8', 'float32'), ('float64', 'int16', 'float64')):
+        us.append({'name': 'large-%s' % precision, 'fn': 'unit_generated', 'kwargs': {'precision': precision, 'int_dtype': idt, 'float_dtype': fdt, 'n': 12 if q else 150, 'large': True}})
     return us
 
 
